@@ -24,7 +24,7 @@ import os
 
 PURE_CALLS = {"len", "isinstance", "bool", "min", "max", "tuple", "set", "frozenset", "int", "str", "sorted",
               "bytes", "numBits", "numBytes"}
-GETTER_PREFIXES = ("is", "get", "has")
+GETTER_PREFIXES = ("is", "has")
 
 
 def _own_walk(fn):
